@@ -508,7 +508,9 @@ func c06R4(c *Ctx) {
 			continue
 		}
 		d := p.ReachCond(b)
-		skip := d.Implies(func(a *Atom) bool { return a.Rel == "" && a.Val && a.B.Kind == "field" && cn(a.B.Field) == "SkipCheckLatency" })
+		skip := d.Implies(func(a *Atom) bool {
+			return a.Rel == "" && a.Val && a.B.Kind == "field" && cn(a.B.Field) == "SkipCheckLatency"
+		})
 		inWindow := d.Implies(func(a *Atom) bool { return a.Rel != "" && strings.Contains(a.String(), "MaxLatency") })
 		c.Check(skip || inWindow, FuncName(tfn), p.InstrPos(r), "latency-accept", "accepted only when skipping is configured or the time is inside the window", "SendingTime check accepts under "+d.String())
 	}
